@@ -1,5 +1,6 @@
 import CarModel.Proofs.IndexGen
 import CarModel.Proofs.FactsTie
+import CarModel.Proofs.IndexSearch
 /-
 C03 — Index soundness and completeness for every payload, codec and reader kind.
 Property theorems only.
@@ -75,5 +76,29 @@ theorem loadLoop_cid_too_large (kind : SrcKind) (o : IdxOpts) (b : Block) (rest 
 example : (⟨⟨1, 0x55, 0x12, List.replicate 32 7⟩, [1, 2, 3]⟩ : Block).idxOk {} := by
   refine ⟨Or.inr ⟨rfl, by decide, by decide, by decide⟩, by decide, ?_, ?_⟩ <;>
     simp [Cid.byteLen, Cid.bytes, Cid.mhBytes, uvarint_small]
+
+/-- (4) **Lookups in a generated index are sound and complete.** For every valid CARv1 payload and
+    either sorted codec: `GetAll(c)` on the index `GenerateIndex` builds yields an offset iff a kept
+    section with `c`'s key (digest / code+digest) starts there — composition of (1) with the
+    exactness of binary search + scan after `Load` (`index_getAll_load`). -/
+theorem generated_index_lookup_exact (kind : SrcKind) (o : IdxOpts) (codec : Nat) (roots : Option (List Cid)) (bs : List Block)
+    (hwf : (CarHeader.mk roots 1).wf) (hmax : (encodeHeaderBody ⟨roots, 1⟩).length ≤ o.maxHeader)
+    (h63 : (encodeHeaderBody ⟨roots, 1⟩).length < 2 ^ 63) (hok : ∀ b ∈ bs, b.idxOk o)
+    (hsz : (payload roots bs).length < 2 ^ 63)
+    (hoff : ∀ r ∈ keptRecords o (headerSize ⟨roots, 1⟩) bs, r.offset < 2 ^ 64)
+    (ix : Index) (hix : generateIndex kind o codec (payload roots bs) = .ok ix) (c : Cid) (off : Nat) :
+    off ∈ ix.getAll c ↔
+      ∃ r ∈ keptRecords o (headerSize ⟨roots, 1⟩) bs,
+        (codec = codecMhSorted → r.cid.mhCode = c.mhCode) ∧ r.cid.digest = c.digest ∧ r.offset = off := by
+  unfold generateIndex at hix
+  rw [loadIndexRecords_v1 kind o roots bs hwf hmax h63 hok hsz] at hix
+  simp only at hix
+  cases hl : Index.load codec (keptRecords o (headerSize ⟨roots, 1⟩) bs) with
+  | none => simp [hl] at hix
+  | some ix' =>
+    simp only [hl] at hix
+    injection hix with hix
+    subst hix
+    exact index_getAll_load codec _ ix' hl hoff c off
 
 end Car.C03
